@@ -23,6 +23,12 @@ the board, a black cell or the black half of a neighbour); (c) around a lattice 
 wedges of 45 degrees each; a run of neighbouring white wedges is the angle some white area has at that point, and a
 rectangle only has angles of 90 degrees (corner), 180 (side) and 360 (inside).  selftest() compares the pruned search
 with the unpruned one.
+
+Large family (shape ("large", h, w)): boards 5x5 .. 7x7, 4x6, 3x8, 2x10, 2x12, 1x12 with black cells on lattice patterns
+and dense number sets derived from fillings.  clued_fillings() is the same row-by-row search with the two local
+conditions (b), (c) only - condition (a) costs a flood fill per cell and is what keeps fillings() from scaling; the verdict
+on a complete grid is still the global flood-fill test - plus the numbers: a number can never be exceeded, and must be
+reachable with the neighbours still to be filled.  selftest() compares it with fillings() + number filter.
 """
 
 import itertools
@@ -191,8 +197,179 @@ def fillings(h, w, wall, prune=True):
     return out
 
 
+_CFILL = {}
+
+
+def clued_fillings(h, w, prob):
+    """All answer grids (flat tuples) whose white areas are all rectangles and that obey the numbers of `prob`."""
+    key = (h, w, tuple(tuple(r) for r in prob))
+    if key in _CFILL:
+        return _CFILL[key]
+    n = h * w
+    wall = tuple(prob[y][x] is not None for y in range(h) for x in range(w))
+    number = [prob[y][x] if prob[y][x] is not None and prob[y][x] >= 0 else None for y in range(h) for x in range(w)]
+    nbs = []
+    for i in range(n):
+        y, x = i // w, i % w
+        nbs.append([j for j, ok in ((i - w, y > 0), (i - 1, x > 0), (i + 1, x + 1 < w), (i + w, y + 1 < h)) if ok])
+    # numbered black cells to look at after cell i has been filled: the cell itself and its neighbours
+    watch = [[j for j in [i] + nbs[i] if number[j] is not None] for i in range(n)]
+    out = []
+    vals = [0] * n
+
+    def numbers_ok(i):
+        for j in watch[i]:
+            cnt = 0
+            todo = 0
+            for k in nbs[j]:
+                if k > i:
+                    if not wall[k]:
+                        todo += 1
+                elif vals[k] != 0:
+                    cnt += 1
+            if cnt > number[j] or cnt + todo < number[j]:
+                return False
+        return True
+
+    def rec(i):
+        if i == n:
+            if regions_ok(h, w, wall, vals, n - 1):
+                out.append(tuple(vals))
+            return
+        if wall[i]:
+            vals[i] = 0
+            if vertices_ok(h, w, wall, vals, i) and numbers_ok(i):
+                rec(i + 1)
+            return
+        for v in range(5):
+            vals[i] = v
+            if legs_ok(h, w, wall, vals, i) and vertices_ok(h, w, wall, vals, i) and numbers_ok(i):
+                rec(i + 1)
+        vals[i] = 0
+
+    rec(0)
+    _CFILL[key] = out
+    return out
+
+
+def lattice_walls(h, w, a, b, m, k):
+    return tuple((a * x + b * y) % m == k for y in range(h) for x in range(w))
+
+
+_LATTICES = [(2, 3, 9, k) for k in (6, 4, 0, 8, 2)] + [(1, 3, 8, k) for k in (2, 6, 0)] + [(1, 2, 6, k) for k in (2, 4, 0)] + [(1, 3, 7, k) for k in (0, 2, 6)] + [(1, 2, 5, k) for k in (0, 2, 4)]
+LARGE_QUICK = [(5, 5), (6, 6), (3, 8), (8, 3), (2, 10), (10, 2), (1, 12), (12, 1)]
+LARGE_THOROUGH = [(4, 6), (6, 4), (4, 7), (7, 4), (2, 12), (12, 2), (3, 10), (10, 3), (5, 6), (6, 5), (7, 7)]
+
+
+def _picks(n, count):
+    if n <= count:
+        return list(range(n))
+    return sorted(set(round(i * (n - 1) / (count - 1)) for i in range(count)))
+
+
+def _count_grid(h, w, wall, vals, cell_value):
+    """Problem grid: white cells None, black cell j -> cell_value(j, number of triangles around j)."""
+    g = []
+    for y in range(h):
+        row = []
+        for x in range(w):
+            i = y * w + x
+            if not wall[i]:
+                row.append(None)
+                continue
+            cnt = 0
+            for dy, dx in ((0, 1), (1, 0), (0, -1), (-1, 0)):
+                yy, xx = y + dy, x + dx
+                if 0 <= yy < h and 0 <= xx < w and vals[yy * w + xx] != 0:
+                    cnt += 1
+            row.append(cell_value(i, cnt))
+        g.append(row)
+    return g
+
+
+def _dense_variants(h, w, wall, vals, rich):
+    cells = [i for i in range(h * w) if wall[i]]
+    m = len(cells)
+    pos = {i: j for j, i in enumerate(cells)}
+    out = [_count_grid(h, w, wall, vals, lambda i, c: c)]
+    for k, off in ([(2, 0), (2, 1), (3, 0), (3, 1)] if rich else [(2, 1)]):
+        out.append(_count_grid(h, w, wall, vals, lambda i, c: -1 if pos[i] % k == off else c))
+    spots = [(0, 1), (m - 1, -1), (m // 2, 1)]
+    if rich:
+        spots += [(0, -1), (m - 1, 1), (m // 2, -1), (1 % m, 1), (m - 2, -1)]
+    for p, d in spots:
+        p %= m
+        out.append(_count_grid(h, w, wall, vals, lambda i, c: (c + (d if c + d >= 0 else 1)) if pos[i] == p else c))
+    # half of the numbers blanked and one of the others changed
+    for p, d in ([(1, 1), (m - 1 - (m % 2), -1)] if rich else [(1, 1)]):
+        p %= m
+        out.append(_count_grid(h, w, wall, vals, lambda i, c: -1 if pos[i] % 2 == 0 and pos[i] != p else ((c + (d if c + d >= 0 else 1)) if pos[i] == p else c)))
+    return out
+
+
+def large_instances(h, w, rich):
+    seen = set()
+    for g in _large_grids(h, w, rich):
+        key = repr(g)
+        if key not in seen:
+            seen.add(key)
+            yield {"height": h, "width": w, "problem": g}
+
+
+def _large_grids(h, w, rich):
+    n = h * w
+    white = [[None] * w for _ in range(h)]
+    if n <= 36:
+        yield white
+    # one black cell in the far corner / on the last row / in the last column, every number it can carry and one more
+    spots = [(h - 1, w - 1, v) for v in ((-1, 0, 1, 2, 3) if rich else (0, 2))]
+    spots += [(h - 1, w // 2, v) for v in ((0, 1, 2, 3, 4) if rich else (3 if h > 1 else 2,))]
+    if rich:
+        spots += [(h // 2, w - 1, v) for v in (0, 1, 2, 3)] + [(h // 2, w // 2, v) for v in (0, 4)] + [(0, 0, 2), (0, w - 1, 2), (h - 1, 0, 2)]
+    if n <= 36:
+        for y, x, v in spots:
+            g = [[None] * w for _ in range(h)]
+            g[y][x] = v
+            yield g
+    # black cells on a lattice; numbers from fillings
+    found = 0
+    for lat in _LATTICES:
+        wall = lattice_walls(h, w, *lat)
+        if not any(wall) or all(wall):
+            continue
+        blank = [[-1 if wall[y * w + x] else None for x in range(w)] for y in range(h)]
+        sols = clued_fillings(h, w, blank)
+        if len(sols) < (1 if min(h, w) <= 2 else 2):
+            continue
+        found += 1
+        yield blank
+        idx = _picks(len(sols), 4 if rich else 3)
+        if not rich:
+            idx = [len(sols) // 2]
+        for i in idx:
+            for g in _dense_variants(h, w, wall, sols[i], rich):
+                yield g
+        if found >= (3 if rich else 1):
+            break
+
+
 def selftest():
-    """pruned search == unpruned search, for every black-cell mask of the boards up to six cells"""
+    """pruned search == unpruned search, for every black-cell mask of the boards up to six cells;
+    clued_fillings() == fillings() + number filter on every single / double clue layout up to 3x4 and a sample on 4x4"""
+    rule = Shakashaka()
+    cases = 0
+    for h, w in [(1, 2), (2, 1), (1, 3), (3, 1), (2, 2), (2, 3), (3, 2), (3, 3), (1, 4), (4, 1), (2, 4), (4, 2), (3, 4), (4, 3), (4, 4)]:
+        for k, p in enumerate(rule.instances((h, w), 12000)):
+            if h * w >= 12 and k % (3 if h * w == 12 else 11):
+                continue
+            a = sorted(rule._readings_small(p))
+            b = sorted(clued_fillings(h, w, p["problem"]))
+            assert a == b, (p, len(a), len(b))
+            cases += 1
+    for h, w in [(4, 5), (5, 5), (2, 10)]:
+        assert sorted(clued_fillings(h, w, [[None] * w for _ in range(h)])) == sorted(fillings(h, w, (False,) * (h * w)))
+    wall = lattice_walls(5, 5, 1, 3, 8, 0)
+    assert sorted(clued_fillings(5, 5, [[-1 if wall[y * 5 + x] else None for x in range(5)] for y in range(5)])) == sorted(fillings(5, 5, wall))
     for h, w in [(1, 1), (1, 2), (2, 1), (1, 3), (3, 1), (2, 2), (2, 3), (3, 2)]:
         for wall in itertools.product([False, True], repeat=h * w):
             a = fillings(h, w, wall, True)
@@ -211,9 +388,16 @@ class Shakashaka(base.Rule):
         s = [(1, 1), (1, 2), (2, 1), (1, 3), (3, 1), (2, 2), (2, 3), (3, 2), (3, 3)]
         if tier != "quick":
             s += [(1, 4), (4, 1), (2, 4), (4, 2), (3, 4), (4, 3), (4, 4)]
+        s += [("large", h, w) for h, w in LARGE_QUICK]
+        if tier != "quick":
+            s += [("large", h, w) for h, w in LARGE_THOROUGH]
         return s
 
     def instances(self, shape, cap):
+        if shape[0] == "large":
+            for p in large_instances(shape[1], shape[2], cap > 1000):
+                yield p
+            return
         h, w = shape
         lays, k = base.layouts(h * w, None, [-1, 0, 1, 2, 3, 4], cap)
         for cells in lays:
@@ -226,6 +410,11 @@ class Shakashaka(base.Rule):
         return is_sat, base.sols_of(answer)
 
     def readings(self, p):
+        if p["height"] * p["width"] > 16:
+            return [clued_fillings(p["height"], p["width"], p["problem"])]
+        return [self._readings_small(p)]
+
+    def _readings_small(self, p):
         h, w, prob = p["height"], p["width"], p["problem"]
         wall = tuple(prob[y][x] is not None for y in range(h) for x in range(w))
         out = []
@@ -247,7 +436,7 @@ class Shakashaka(base.Rule):
                     break
             if ok:
                 out.append(vals)
-        return [out]
+        return out
 
     def example(self):
         prob = [[None] * 10 for _ in range(10)]
